@@ -65,7 +65,7 @@ def frameOut (f : Frame) : String :=
   s!"F:{f.opcode}:{f.fin}:{f.rsv1}{f.rsv2}{f.rsv3}:{summarize f.data}"
 
 /-- run one API call; returns the rendered result and the new state. -/
-def runOp (c : Conn) (op : String) : Option (String × Conn) :=
+def runOp0 (c : Conn) (op : String) : Option (String × Conn) :=
   match op.splitOn ":" with
   | ["recv"] =>
     match c.recv with
@@ -145,6 +145,20 @@ def runOp (c : Conn) (op : String) : Option (String × Conn) :=
     let t ← parseOptNat t
     some ("ok", { c with sock := { c.sock with timeoutMs := t } })
   | _ => none
+
+
+/-- `sel:<op>` = a select-driven caller: the call is made only when the TRANSPORT is readable (data, end of stream or a reset
+    is there); what the library holds in its own buffers is invisible to select. Otherwise the result is IDLE. -/
+def runOp (c : Conn) (op : String) : Option (String × Conn) :=
+  if op.startsWith "sel:" then
+    let readable := c.hasSock && !c.sock.closed &&
+      (match c.sock.inp with
+       | [] => c.sock.tail == .eof
+       | .timeout :: _ => false
+       | .wait _ :: _ => false
+       | _ => true)
+    if readable then runOp0 c (op.drop 4).toString else some ("IDLE", c)
+  else runOp0 c op
 
 def stateOut (c : Conn) (wireBefore : Nat) : String :=
   let w := c.sock.wire
